@@ -157,7 +157,7 @@ func (c NestCase) names() string {
 // with an operand followed by an operator. Putting the second straight into the first would
 // not nest (- x IN (...) is (-x) IN (...)), so build() parenthesises that junction; the extra
 // parentheses are real nesting that is not counted, which only makes the count conservative.
-var tightHole = map[string]bool{"unary_minus": true, "between_low": true, "between_high": true}
+var tightHole = map[string]bool{"unary_minus": true, "between_low": true, "between_high": true, "not": true} // NOT x AND (...) is (NOT x) AND (...)
 var operandFirst = map[string]bool{"in_list": true, "between_low": true, "between_high": true, "binary_right_paren": true, "and_right": true,
 	"like_pattern": true, "any_subquery": true, "all_subquery": true, "in_subquery": true, "not": true, "exists": true, "not_exists": true,
 	"case_when_cond": false}
@@ -195,7 +195,8 @@ func (c NestCase) build(depth int) string {
 		pre = append(pre, p.Pre+c.Sep)
 		post = append(post, p.Post)
 		cur = p.Out
-		if p.Mode == "" || (p.Mode == "chain" && c.pureChain()) {
+		notExists := i > 0 && p.Name == "exists" && prods[c.Pattern[(i-1)%len(c.Pattern)]].Name == "not" // NOT EXISTS (...) is one construct, one level
+		if (p.Mode == "" || (p.Mode == "chain" && c.pureChain())) && !notExists {
 			levels++
 		}
 	}
